@@ -123,6 +123,10 @@ func optionModel(target string, vals map[string]interface{}, run *engine.Run, ba
 }
 
 func judgeC11(rec *stats.Rec, c c11Case) (string, string) {
+	return apiGuard(func() (string, string) { return judgeC11Inner(rec, c) })
+}
+
+func judgeC11Inner(rec *stats.Rec, c c11Case) (string, string) {
 	baseV, baseRun := lintWith(c.Kind, c.DER, nil)
 	if !baseRun.Parsed {
 		rec.Class("parse_rejected")
@@ -332,6 +336,15 @@ func (h *c11History) text() []string {
 // lint operations, compares every verdict with the prediction from the
 // configuration the model says that registry holds.
 func (h *c11History) step(op c11Op) (sig, msg string, skipped bool) {
+	sig, msg = apiGuard(func() (string, string) {
+		s, m, sk := h.stepInner(op)
+		skipped = sk
+		return s, m
+	})
+	return
+}
+
+func (h *c11History) stepInner(op c11Op) (sig, msg string, skipped bool) {
 	if op.Reg < 0 || op.Reg >= len(h.regs) {
 		return "", "", true
 	}
